@@ -79,6 +79,13 @@ def check(ctx, report):
                 and any(h.name == payload.value.id and h.type is not None and 'NotEnoughData' in ast.unparse(h.type) for h in hs):
             report.sample({'rule': 'C04.R1', 'site': cons, 'verdict': 're-raises the count of the caught error'})
             continue
+        vector_bound = f.cls is not None and f.cls.name == 'ArrayBase' and 'min_byte_num' in ast.unparse(payload)
+        if vector_bound and cons not in REVIEWED_R1:
+            # the same reviewed site after a helper extraction: any method of ArrayBase that reports its lower bound
+            ifs0 = enclosing_ifs(f.node, call)
+            if ifs0 and 'min_byte_num' in ast.unparse(ifs0[-1][0].test):
+                report.sample({'rule': 'C04.R1', 'site': cons, 'verdict': 'reviewed', 'reason': REVIEWED_R1['cryptoparser/common/base.py:ArrayBase._update_items_size']})
+                continue
         if cons in REVIEWED_R1:
             ok = reviewed_fact(cons, f, call, payload)
             if not ok:
